@@ -4,6 +4,7 @@ package json
 
 import (
 	"fmt"
+	"os"
 	"path/filepath"
 	"runtime"
 	"strings"
@@ -27,29 +28,44 @@ func TestVerifC16JSON(t *testing.T) {
 	defer run.Finish()
 	run.Rule("trial = json.Storage (1 ms auto-save loop, dirty or clean) x K in {1,2,4,12} Close callers from a spin barrier, each under recover, then Close once more and 12 public methods under recover; distinct = (K, dirty, overlap)")
 	r := run.Rand("trials")
-	n := run.Pick(300, 3000)
+	n := run.Pick(400, 4000)
 	ks := []int{1, 2, 4, 12}
 	run.Floor("overlap_runs", 100)
+	run.Floor("closes_with_failing_final_save", 30)
 	dir := t.TempDir()
 	scope := []string{"tunnox-core/internal/core/storage/json"}
 	for trial := 0; trial < n && run.Violations() < 20 && run.Counter("leak_violations") < 3; trial++ {
 		k := ks[r.Intn(len(ks))]
 		dirty := r.Intn(2) == 0
+		autoSave := r.Intn(4) != 0
+		interval := []time.Duration{time.Millisecond, time.Hour}[r.Intn(2)]
+		// fault script: the data directory disappears before Close, so the close-time save fails
+		unwritable := r.Intn(3) == 0
 		spins := make([]int, k)
 		for i := range spins {
 			if r.Intn(2) == 0 {
 				spins[i] = r.Intn(300)
 			}
 		}
-		desc := map[string]any{"trial": trial, "K": k, "dirty": dirty, "spins": spins}
+		desc := map[string]any{"trial": trial, "K": k, "dirty": dirty, "spins": spins, "auto_save": autoSave, "save_interval": interval.String(), "data_dir_removed_before_close": unwritable}
 		run.Eval(1)
 		snap := vk.SnapshotGoroutines()
-		s, err := New(&Config{FilePath: filepath.Join(dir, fmt.Sprintf("c16-%d.json", trial%8)), AutoSave: true, SaveInterval: time.Millisecond})
+		sub := filepath.Join(dir, fmt.Sprintf("d%d", trial))
+		s, err := New(&Config{FilePath: filepath.Join(sub, "data.json"), AutoSave: autoSave, SaveInterval: interval})
 		if err != nil {
 			t.Fatalf("c16: json.New: %v", err)
 		}
 		if dirty {
 			_ = s.Set("k", "v")
+		}
+		if unwritable {
+			if err := os.RemoveAll(sub); err != nil {
+				t.Fatalf("c16: remove data dir: %v", err)
+			}
+			if dirty {
+				_ = s.Set("k2", "v2") // unsaved data at close time, whatever the auto-saver did meanwhile
+				run.Count("closes_with_failing_final_save", 1)
+			}
 		}
 		var ready, inside, maxIn, panics atomic.Int32
 		var flag atomic.Uint32
@@ -101,7 +117,7 @@ func TestVerifC16JSON(t *testing.T) {
 		if maxIn.Load() >= 2 {
 			run.Count("overlap_runs", 1)
 		}
-		run.Distinct(fmt.Sprintf("K=%d|dirty=%v|overlap=%v", k, dirty, maxIn.Load() >= 2))
+		run.Distinct(fmt.Sprintf("K=%d|dirty=%v|auto=%v|%s|unwritable=%v|overlap=%v", k, dirty, autoSave, interval, unwritable, maxIn.Load() >= 2))
 		if p := panics.Load(); p > 0 {
 			run.Violation("C16:json|panic|op=Close|concurrent", map[string]any{"case": desc, "closers_that_panicked": p, "panic": firstPanic.Load()})
 		}
